@@ -163,6 +163,7 @@ Proof.
   - unfold env_val in H. inversion H; subst. left; reflexivity.
   - unfold exec_batch in H. guards H. inversion H; subst. left; reflexivity.
   - unfold export_import in H. inversion H; subst. left; reflexivity.
+  - unfold observe_set in H. guards H. inversion H; subst. left; reflexivity.
   - apply end_block_spec in H. left. destruct H as (_ & _ & _ & _ & _ & G & _). rewrite G. reflexivity.
 Qed.
 
@@ -220,6 +221,7 @@ Proof.
   - unfold env_val in H. inversion H; subst. left; reflexivity.
   - unfold exec_batch in H. guards H. inversion H; subst. left; reflexivity.
   - unfold export_import in H. inversion H; subst. left; reflexivity.
+  - unfold observe_set in H. guards H. inversion H; subst. left; reflexivity.
   - apply end_block_spec in H. left. destruct H as (_ & _ & _ & _ & _ & _ & _ & B & _). exact B.
 Qed.
 
@@ -321,6 +323,7 @@ Proof.
   - exfalso. unfold env_val in H. inversion H; subst; clear H. unfold set_vals_deleg in *; proj; congruence.
   - exfalso. unfold exec_batch in H. guards H. inversion H; subst; clear H. unfold set_objs in Hr'; proj; congruence.
   - exfalso. pose proof (export_import_recs_sub _ _ _ _ I H Hr'). congruence.
+  - exfalso. unfold observe_set in H. guards H. inversion H; subst; clear H. proj; congruence.
   - right. apply end_block_spec in H. destruct H as (R & U & _).
     pose proof (R a) as Ra. rewrite Hr, Hr' in Ra. destruct Ra as [->|[_ ->]]; [congruence|].
     destruct (due_hit a s) eqn:EX.
@@ -390,6 +393,7 @@ Proof.
   - exfalso. destruct (recs s' a) as [r'|] eqn:Hr'.
     + rewrite (export_import_recs_sub _ _ _ _ I H Hr') in Lt. lia.
     + destruct (recs s a) as [r|] eqn:Hr; [specialize (NN _ eq_refl)|]; lia.
+  - exfalso. unfold observe_set in H. guards H. inversion H; subst; clear H. proj; lia.
   - pose proof (end_block_spec _ _ _ _ _ H) as (R & _).
     pose proof (R a) as Ra. destruct (recs s a) as [r|] eqn:Hr, (recs s' a) as [r'|] eqn:Hr'; try tauto; try lia.
     destruct Ra as [->|[On ->]]; [lia|].
